@@ -386,6 +386,7 @@ pub fn run(tier: &str, seed: u64) -> i32 {
                 prop_oneof![
                     3 => gen::rule(gen::RuleOpts { negation: false, ..Default::default() }),
                     1 => gen::rule_focus(false),
+                    1 => gen::rule_nested_focus(false),
                 ],
                 prop::collection::vec(gen::doc_recipe(), 8),
                 any::<u16>(),
